@@ -226,8 +226,11 @@ def aggregate(spec, results):
     raw_runs = 0
     fault_free_runs = 0
     forks = 0
+    pairset = set()
+    from . import gen as _gen
     for r in runs:
         meta = r["meta"]
+        pairset |= _gen.pairs(meta)
         if spec.nontrivial(meta):
             sigs.add(hashlib.sha256(repr(spec.signature(meta)).encode()).hexdigest())
         for k, v in sorted(meta.get("fired", {}).items()):
@@ -250,9 +253,30 @@ def aggregate(spec, results):
             fault_free_runs += 1
         forks += r.get("forks", 0)
     return {"runs": len(runs), "ops": sum(r["nops"] for r in runs), "distinct_nontrivial": len(sigs),
-            "fault_counts": fault, "hits": hits, "skipped": skipped, "triples": len(triples), "samples": samples, "raw_runs": raw_runs,
+            "pairs": len(pairset), "fault_counts": fault, "hits": hits, "skipped": skipped, "triples": len(triples), "samples": samples, "raw_runs": raw_runs,
             "raw_divergent_runs": raw_div, "fault_free_runs": fault_free_runs, "forks": forks,
             "seeds": [r["seed"] for r in runs[:20]]}
+
+
+RULES = {
+    "C09": "one evaluation = one op of a seeded program executed in the SUT session (one process, masked known findings) and "
+           "compared with its pristine-process reference (same op on freshly built identical objects, process with no past); "
+           "a history is non-trivial when it contains a potentially state-bearing event (interpretation naming a compound id, "
+           "aborted call, cache-filling or object-deriving call, solver exchange) followed by a later observation on the same, an "
+           "alias-sharing, a near-twin or a derived object; distinct = distinct abstract histories (sequence of (method, "
+           "relation-to-first-object, fault tags)), hashed; distinct_event_observation_pairs is the coarser additive measure",
+    "C15": "one evaluation = one op of a seeded session (solve/select requests served by the scripted peer, benign queries and "
+           "derivations in between); every request that crosses the seam is verified against absolute by-id oracles (see "
+           "probes_fired c15:*); a session is non-trivial when at least one request crossed the seam; distinct = distinct abstract "
+           "histories (sequence of (method, relation, peer mode + fault tags)), hashed",
+    "C17": "one evaluation = one op of a seeded session executed twice (uncrashed primary; replica across crash/restore); a "
+           "session is non-trivial when an object was restored from the store and at least one op followed; distinct = distinct "
+           "abstract histories (restore target + sequence of (method, phase:kind, fault tags)), hashed",
+    "C18": "one evaluation = one op of a seeded addition history compared with the same op on directly constructed "
+           "configurators in a pristine process; a history is non-trivial when an addition was accepted or refused and an "
+           "observation of the new or the original version followed; distinct = distinct abstract histories (sequence of "
+           "(method, version depth, outcome/fault tags)), hashed",
+}
 
 
 def write_evidence(prop, tier, base, agg, wall, violations, harness_errors, det_msg, kf_repro, jobs, mask):
@@ -262,14 +286,10 @@ def write_evidence(prop, tier, base, agg, wall, violations, harness_errors, det_
         "coverage": {
             "evaluations": agg["ops"],
             "distinct_nontrivial": agg["distinct_nontrivial"],
-            "rule": "one evaluation = one op of a seeded program executed in the SUT session and compared with its "
-                    "pristine-process reference; a history counts as non-trivial when it contains a potentially "
-                    "state-bearing event (interpretation naming a compound id, aborted call, cache-filling or "
-                    "object-deriving call, solver exchange) followed by a later observation on the same, an "
-                    "alias-sharing, a near-twin or a derived object; distinct = distinct abstract histories "
-                    "(sequence of (method, relation-to-first-object, fault tags)), hashed",
+            "rule": RULES.get(prop, RULES["C09"]),
             "samples": agg["samples"] or [{"note": "no sample run in this batch"}],
             "runs": agg["runs"],
+            "distinct_event_observation_pairs": agg["pairs"],
             "runs_per_hour": int(agg["runs"] / max(wall, 1e-9) * 3600),
             "ops_per_hour": int(agg["ops"] / max(wall, 1e-9) * 3600),
             "simulated_time": f"n/a – no clock in the SUT; logical steps (ops executed and compared) = {agg['ops']}",
